@@ -98,6 +98,9 @@ def check_exit(eng: Engine, contract: Contract, kind, st: State, val, self_ref, 
     if contract.generator is not None and kind != RAISE:
         result = GenVal(contract.generator, st.ghost["$out_set"].term, st.ghost["$out_count"].term)
     elif kind != RAISE and contract.result is not None and not isinstance(contract.result, (ObjT, list)) and result is not None:
+        so = getattr(eng.reg, "str_of", {}).get(getattr(getattr(result, "ty", None), "name", None)) if isinstance(result, Val) else None
+        if so is not None and contract.result == STR:
+            result = Val(so(result), STR)
         result = coerce(result, contract.result)
     post_extra = {}
     for pn in getattr(contract, "mutable_params", ()):
@@ -187,6 +190,27 @@ def witness_obligations(eng: Engine, contract: Contract, st: State, self_ref, ar
         eng.obligations.append(ob)
 
 
+_known_cache = {}
+
+
+def _is_known_finding(name: str) -> bool:
+    import fnmatch, json, os
+    pid = name.split("/")[0]
+    if pid not in _known_cache:
+        pats = []
+        path = os.path.join(os.path.dirname(os.path.dirname(os.path.abspath(__file__))), "findings", "known_findings.jsonl")
+        if os.path.exists(path):
+            for line in open(path):
+                line = line.strip()
+                if line.startswith("{"):
+                    rec = json.loads(line)
+                    if rec.get("property") == pid:
+                        m = rec.get("match") or []
+                        pats += [m] if isinstance(m, str) else list(m)
+        _known_cache[pid] = pats
+    return any(fnmatch.fnmatchcase(name, p) for p in _known_cache[pid])
+
+
 def verify_function(src: Source, reg: Registry, contract: Contract, prefix: str, step_hooks=None,
                     z3_timeout=None, solve=True) -> FunctionReport:
     rep = FunctionReport(contract.key)
@@ -261,6 +285,10 @@ def verify_function(src: Source, reg: Registry, contract: Contract, prefix: str,
             if n:
                 ob.name = f"{ob.name}#p{n}"
         for ob in rep.obligations:
+            if _is_known_finding(ob.name):
+                # listed in the known-findings file: a short budget is enough (it fails or stays undecided either way)
+                discharge(ob, use_cvc5=False, z3_timeout=5000, retry=False)
+                continue
             if ob.kind == "cover":
                 discharge(ob, use_cvc5=False, z3_timeout=10000 if ob.extra.get("witness") else 2000)
                 if ob.extra.get("witness") and ob.status != "discharged":
